@@ -302,16 +302,18 @@ package exec
 //@   ensures  new-work-below: forall(x, implies(s.todo[(*Task)(x)] && !old(s.todo[(*Task)(x)]), rank((*Task)(x)) <= rank(task)))
 //@   ensures  new-memo-below: forall(h, implies(has(s.wait, (*Task)(h)) && !old(has(s.wait, (*Task)(h))), rank((*Task)(h)) <= rank(task)))
 //@   ensures  zero-means-done: implies(nwait == 0 && !old(has(s.wait, headOf(task))), forall(x, implies(phaseOf(task, (*Task)(x)), (*Task)(x).state == TaskOk)))
-//@   known zero-means-done excl forall(x, (*Task)(x).state != TaskErr)
+//@   ensures  failed-task-reported: implies(!old(has(s.wait, headOf(task))), forall(x, implies(phaseOf(task, (*Task)(x)) && (*Task)(x).state == TaskErr, s.err != nil)))
+//@   ensures  error-sticky: implies(old(s.err) != nil, s.err == old(s.err))
 //@   ensures  awaited-when-running-elsewhere: implies(!old(has(s.wait, headOf(task))), forall(x, implies(phaseOf(task, (*Task)(x)) && ((*Task)(x).state == TaskWaiting || (*Task)(x).state == TaskRunning), s.todo[(*Task)(x)] || s.pending[(*Task)(x)])))
 //@   ensures  started-only-when-ready: forall(x, implies(s.todo[(*Task)(x)] && !old(s.todo[(*Task)(x)]) && ((*Task)(x).state == TaskInit || (*Task)(x).state == TaskLost), readyToStart(s, (*Task)(x))))
-//@   modifies s.wait[:], s.todo[:], s.counts[:], s.deps[:], maps(*Task, struct{})
+//@   modifies s.wait[:], s.todo[:], s.counts[:], s.deps[:], maps(*Task, struct{}), s.err
 //@   loop 1 invariant stateOK(s) && nwait >= 0 && tasksOK() && waitOK(s) && len(range_coll) >= 1 && forall(j, 0, len(range_coll), range_coll[j] != nil && rank(range_coll[j]) == rank(arg0))
 //@   loop 1 invariant ph: forall(x, phaseOf(arg0, (*Task)(x)) == exists(j, 0, len(range_coll), range_coll[j] == (*Task)(x)))
 //@   loop 1 invariant wg: forall(h, implies(old(has(s.wait, (*Task)(h))), has(s.wait, (*Task)(h)) && s.wait[(*Task)(h)] == old(s.wait[(*Task)(h)])))
 //@   loop 1 invariant tg: forall(x, implies(old(s.todo[(*Task)(x)]), s.todo[(*Task)(x)])) && forall(x, s.pending[(*Task)(x)] == old(s.pending[(*Task)(x)]))
 //@   loop 1 invariant rk: forall(x, implies(s.todo[(*Task)(x)] && !old(s.todo[(*Task)(x)]), rank((*Task)(x)) <= rank(arg0))) && forall(h, implies(has(s.wait, (*Task)(h)) && !old(has(s.wait, (*Task)(h))), rank((*Task)(h)) < rank(arg0)))
-//@   loop 1 invariant zd: implies(nwait == 0, forall(j, 0, range_idx, range_coll[j].state == TaskOk || range_coll[j].state == TaskErr))
+//@   loop 1 invariant zd: implies(nwait == 0, forall(j, 0, range_idx, range_coll[j].state == TaskOk))
+//@   loop 1 invariant er: forall(j, 0, range_idx, implies(range_coll[j].state == TaskErr, s.err != nil)) && implies(old(s.err) != nil, s.err == old(s.err))
 //@   loop 1 invariant aw: forall(j, 0, range_idx, implies(range_coll[j].state == TaskWaiting || range_coll[j].state == TaskRunning, s.todo[range_coll[j]] || s.pending[range_coll[j]]))
 //@   loop 1 invariant rd: forall(x, implies(s.todo[(*Task)(x)] && !old(s.todo[(*Task)(x)]) && ((*Task)(x).state == TaskInit || (*Task)(x).state == TaskLost), readyToStart(s, (*Task)(x))))
 //@   loop 2 invariant stateOK(s) && nwait >= 0 && tasksOK() && waitOK(s)
@@ -320,7 +322,8 @@ package exec
 //@   loop 2 invariant wg: forall(h, implies(old(has(s.wait, (*Task)(h))), has(s.wait, (*Task)(h)) && s.wait[(*Task)(h)] == old(s.wait[(*Task)(h)])))
 //@   loop 2 invariant tg: forall(x, implies(old(s.todo[(*Task)(x)]), s.todo[(*Task)(x)])) && forall(x, s.pending[(*Task)(x)] == old(s.pending[(*Task)(x)]))
 //@   loop 2 invariant rk: forall(x, implies(s.todo[(*Task)(x)] && !old(s.todo[(*Task)(x)]), rank((*Task)(x)) <= rank(arg0))) && forall(h, implies(has(s.wait, (*Task)(h)) && !old(has(s.wait, (*Task)(h))), rank((*Task)(h)) < rank(arg0)))
-//@   loop 2 invariant zd: implies(nwait == 0, forall(j, 0, range_idx1, range_coll1[j].state == TaskOk || range_coll1[j].state == TaskErr))
+//@   loop 2 invariant zd: implies(nwait == 0, forall(j, 0, range_idx1, range_coll1[j].state == TaskOk))
+//@   loop 2 invariant er: forall(j, 0, range_idx1, implies(range_coll1[j].state == TaskErr, s.err != nil)) && implies(old(s.err) != nil, s.err == old(s.err))
 //@   loop 2 invariant aw: forall(j, 0, range_idx1, implies(range_coll1[j].state == TaskWaiting || range_coll1[j].state == TaskRunning, s.todo[range_coll1[j]] || s.pending[range_coll1[j]]))
 //@   loop 2 invariant rd: forall(x, implies(s.todo[(*Task)(x)] && !old(s.todo[(*Task)(x)]) && ((*Task)(x).state == TaskInit || (*Task)(x).state == TaskLost), readyToStart(s, (*Task)(x))))
 //@   loop 2 invariant ry: implies(ready, forall(d, 0, range_idx, memoDone(s, headOf(task.Deps[d].Head))))
